@@ -90,4 +90,45 @@ def deliverNestedAt (md : Mode) (s : St) (g g' : Sig) (at_ : NestAt) : St × Lis
   | some k => deliverNested md s g g' k     -- (if the outer handler exits before the place, nothing is raised)
   | none => deliver md s g
 
+/-! ## schedules with nested deliveries (what the line driver runs) -/
+
+/-- one scheduled delivery: the signal, and optionally a second one raised at a place inside its handler -/
+structure SigSpec where
+  g : Sig
+  nested : Option (Sig × NestAt)
+  deriving DecidableEq, Repr
+
+inductive EvN
+  | step (m : Micro)
+  | sig (sp : SigSpec)
+  deriving DecidableEq, Repr
+
+def execN (md : Mode) (s : St) (e : EvN) : St × List Obs :=
+  match e with
+  | .step m => exec md s (.step m)
+  | .sig ⟨g, none⟩ => exec md s (.sig g)
+  | .sig ⟨g, some (g', p)⟩ => if s.halted.isSome then (s, []) else deliverNestedAt md s g g' p
+
+def traceN (md : Mode) : St → List EvN → List (EvN × List Obs × St)
+  | _, [] => []
+  | s, e :: r =>
+    let p := execN md s e
+    (e, p.2, p.1) :: traceN md p.1 r
+
+def scheduleN : List Micro → Nat → List (Nat × SigSpec) → List EvN
+  | [], _, sch => sch.map (fun p => .sig p.2)
+  | m :: ms, i, sch =>
+    (sch.takeWhile (fun p => p.1 ≤ i)).map (fun p => .sig p.2)
+      ++ .step m :: scheduleN ms (i + 1) (sch.dropWhile (fun p => p.1 ≤ i))
+
+def validSchedN (n : Nat) : List (Nat × SigSpec) → Bool
+  | [] => true
+  | [p] => p.1 ≤ n
+  | p :: q :: r => p.1 ≤ q.1 && validSchedN n (q :: r)
+
+/-- forget the nesting information -/
+def EvN.plain : EvN → Ev
+  | .step m => .step m
+  | .sig sp => .sig sp.g
+
 end MpVerif.C15
